@@ -152,7 +152,12 @@ def run_case(case, tmp):
             return {str(k): action(v) for k, v in a[1]}
         return ("raw", a[1])
 
-    inter = Interaction(agent(case["agent"]), env(case["env"]))
+    if case.get("fixed_root"):
+        # the other root class: the same composite with a pacing adjustor; it must be just as transparent
+        from pamiq_core.interaction import FixedIntervalInteraction
+        inter = FixedIntervalInteraction.with_sleep_adjustor(agent(case["agent"]), env(case["env"]), 0.0)
+    else:
+        inter = Interaction(agent(case["agent"]), env(case["env"]))
     root = Path(tmp) / "state"
     state["root"] = root
     ok = True
